@@ -75,13 +75,16 @@ pub fn exec_nodes(hs: &HashMap<String, H>, w: &Wa, nodes: &[Node], tr: &RefCell<
                 ev.borrow_mut().push("X".to_string());
             }
             Node::Bc { a, var, col, m, kids } => {
-                let any = match hs.get(var) {
-                    Some(H::Ent { any, .. }) => Some(*any),
-                    _ => None,
-                };
+                let key = hs.get(var).copied();
                 ev.borrow_mut().push(format!("A bc:{}:{}:{}:{}", a, var, col, if *m { "m" } else { "s" }));
                 crate::dispatch!(*a, A => {
-                    match any.and_then(|k| <A as ArchX>::of(w).borrow(k)) {
+                    let got = match key {
+                        Some(H::Ent { any, .. }) => <A as ArchX>::of(w).borrow(any),
+                        // a dynamically typed DIRECT key: the lookup itself must not care about guards
+                        Some(H::Dir { any, .. }) => <A as ArchX>::of(w).borrow(any),
+                        None => None,
+                    };
+                    match got {
                         Some(b) => <A as ArchX>::with_borrow_comp(&b, *col, *m, &mut || {
                             tr.borrow_mut().push("bc+".to_string());
                             ev.borrow_mut().push("+".to_string());
@@ -93,13 +96,10 @@ pub fn exec_nodes(hs: &HashMap<String, H>, w: &Wa, nodes: &[Node], tr: &RefCell<
                 ev.borrow_mut().push("X".to_string());
             }
             Node::Fb { q, var, kids } => {
-                let any = match hs.get(var) {
-                    Some(H::Ent { any, .. }) => Some(*any),
-                    _ => None,
-                };
+                let key = hs.get(var).copied();
                 let mut ran = false;
                 ev.borrow_mut().push(format!("A fb:q{}:{}", q, var));
-                if let Some(k) = any {
+                if let Some(k) = key {
                     let mut hook = |args: &str| {
                         ran = true;
                         tr.borrow_mut().push("fb+".to_string());
@@ -108,7 +108,10 @@ pub fn exec_nodes(hs: &HashMap<String, H>, w: &Wa, nodes: &[Node], tr: &RefCell<
                     };
                     let mut cx = Ctx::default();
                     cx.hook = Some(&mut hook);
-                    let _ = (MENU[*q].findb_any)(w, k, &mut cx);
+                    let _ = match k {
+                        H::Ent { any, .. } => (MENU[*q].findb_any)(w, any, &mut cx),
+                        H::Dir { any, .. } => (MENU[*q].findb_dirany)(w, any, &mut cx),
+                    };
                 }
                 if !ran {
                     tr.borrow_mut().push("fb-".to_string());
